@@ -183,7 +183,7 @@ PROPS["C15"] = {
     "audit_files": ["Narwhal/Model/Writer.lean"],
     "expect_theorems": ["Narwhal.Writer.writeAll_prefix", "Narwhal.Writer.writeAll_terminates", "Narwhal.Writer.iov_layout",
                         "Narwhal.Writer.C15_bytes_are_frames", "Narwhal.Writer.trySend_total", "Narwhal.Writer.C15_non_interference",
-                        "Narwhal.Writer.C15_overflow_closes_self"],
+                        "Narwhal.Writer.C15_overflow_closes_self", "Narwhal.Writer.C15_close_between_frames"],
     "suites": {"writer": {"kind": "lines", "nvh_suite": "writer", "driver_suite": "writer", "op_prefixes": ["frames", "wav", "overflow", "interrupted"],
                           "cases": {"quick": 60, "thorough": 1500}, "oracle_tags": ["C15"]}},
     "rule": "bursts of 1..300 mixed frames (with/without payload, payload sizes 1..257 incl. LF bytes) injected through the real ConnTx of a real "
@@ -293,7 +293,7 @@ for _p in ("C01", "C02", "C04", "C05", "C07", "C14", "C18"):
 # the real server under modulator latency: handlers suspended at their await points while other requests, socket closes and
 # re-identifications proceed; auditor at quiescence (oracle-only, see lib/suite_oracle.py and harness/src/lat_suite.rs)
 LAT_SUITE = {"kind": "oracle", "nvh_suite": "lat", "cases": {"quick": 1500, "thorough": 40000}}
-for _p in ("C01", "C05", "C12"):
+for _p in ("C01", "C05", "C12", "C14"):
     PROPS[_p]["suites"]["lat"] = dict(LAT_SUITE, oracle_tags=[_p])
 
 
@@ -418,7 +418,8 @@ PROPS["C20"] = {
                         "Narwhal.Timers.C20_ping_timeout_only_unanswered", "Narwhal.Timers.C20_unsolicited_pong_parked",
                         "Narwhal.Timers.C20_second_unsolicited_pong_closes", "Narwhal.Timers.C20_active_not_pinged",
                         "Narwhal.Timers.C20_shutdown_closes", "Narwhal.Timers.C20_shutdown_all", "Narwhal.Timers.C20_closed_is_final",
-                        "Narwhal.Timers.C20_auth_retry_keeps_deadline"],
+                        "Narwhal.Timers.C20_auth_retry_keeps_deadline", "Narwhal.Timers.C20_deliveries_invisible",
+                        "Narwhal.Timers.C20_deliver_inert"],
     "suites": {"timers": {"kind": "lines", "nvh_suite": "timers", "driver_suite": "timers", "op_prefixes": ["t "],
                           "cases": {"quick": 400, "thorough": 8000}, "oracle_tags": ["C20"]},
                "kf_stall": {"kind": "oracle", "nvh_suite": "timers", "cases": {"quick": 1, "thorough": 1},
